@@ -150,6 +150,64 @@ def worker(items, extra, progress):
     return bad, dict(hist)
 
 
+def split_worker(items, extra, progress):
+    """the real treecleanerhelper.split_row vs Model.splitRow: rows of 1-4 cells with 0-6 children of random estimated height."""
+    import logging
+    from fractions import Fraction
+    from math import lcm
+
+    from . import build_repo
+
+    build_repo.overlay_all()
+    logging.disable(logging.WARNING)
+    from mwlib.parser import advtree, nodes
+    from mwlib.parser import treecleanerhelper as th
+    from mwlib.parser.treecleaner import TreeCleaner
+
+    from .common import Driver
+
+    params = TreeCleaner(nodes.Article(), save_reports=False).cell_splitter_params
+    reqs, meta, viol, hist = [], [], [], Counter()
+    for i, seed in enumerate(items):
+        progress(i)
+        rng = random.Random(seed)
+        row = advtree.Row()
+        k = 0
+        for _ in range(rng.randint(1, 4)):
+            cell = advtree.Cell()
+            for _ in range(rng.choice([0, 1, 1, 2, 3, 4, 6])):
+                node = advtree.Paragraph() if rng.random() < 0.8 else advtree.Strong()
+                node.append_child(advtree.Text("x" * rng.choice([0, 5, 40, 41, 300, 500, 560, 580, 600, 900, 2000])))
+                node._vid = k
+                k += 1
+                cell.append_child(node)
+            row.append_child(cell)
+        advtree.Table().append_child(row)
+        hs = [[Fraction(th.get_node_height(ch, params)) for ch in c.children] for c in row.children]
+        den = lcm(*[h.denominator for c in hs for h in c], Fraction(params["maxCellHeight"]).denominator, 1)
+        want = [[ch._vid for ch in c.children] for c in row.children]
+        try:
+            rows = th.split_row(row, params)
+        except Exception as e:  # noqa: BLE001
+            viol.append({"why": f"split_row raised {type(e).__name__}: {e}", "text": repr(want)})
+            continue
+        real = " / ".join(" | ".join(" ".join(str(ch._vid) for ch in c.children) for c in r.children) for r in rows)
+        got = [[ch._vid for r in rows for ch in r.children[ci].children] for ci in range(len(want))] if rows else [[] for _ in want]
+        if rows and got != want:
+            viol.append({"why": f"split_row lost or re-ordered the children of a cell: {got} instead of {want}", "text": repr(want)})
+        hist["rows-split"] += 1
+        hist["new-rows-%d" % min(len(rows), 5)] += 1
+        reqs.append("split %d;%s" % (int(Fraction(params["maxCellHeight"]) * den),
+                                     ";".join(" ".join("%d:%d" % (int(h * den), v) for h, v in zip(hc, wc)) for hc, wc in zip(hs, want))))
+        meta.append((want, real))
+    progress(len(items))
+    diffs = []
+    for (want, real), o in zip(meta, Driver("splitrow").ask(reqs)):
+        if real.split() != o.split():
+            diffs.append({"stream": "split_row", "cells": want, "impl": real, "model": o})
+    return diffs, viol, dict(hist)
+
+
 def replay(chk, data):
     from . import build_repo
 
@@ -181,6 +239,8 @@ def run(chk: common.Check):
     trusted = [
         "Lean 4 kernel; axioms propext, Quot.sound, Classical.choice only (audited per theorem on this run)",
         "tree model (Model/Tree.lean) tied to advtree's primitives by the C05 correspondence",
+        "hand-written model lean/MwVerif/Model/SplitRow.lean of treecleanerhelper.split_row (heights abstract: get_node_height is run for real "
+        "and its values, scaled to integers exactly, are given to the model), tied by correspondence on random rows",
         "NOT a theorem: that each pass dissolves/removes only textless nodes and moves nodes without reordering text - checked by the "
         "word/ancestor oracle on the real cleaner over the document grammar",
         "harness/doc_common.py (generator, reader of sections/lists/references/cells), harness/clean_common.py (pass driver)",
@@ -205,6 +265,18 @@ def run(chk: common.Check):
                 "complete pass sequence: word order, section path, list nesting, reference, cell membership. non-trivial = documents",
         "histogram": dict(hist),
     })
+    sitems = [chk.seed * 10_000_000 + 7_500_000 + i for i in range(20000 if tier == "thorough" else 3000)]
+    r3, c3 = guard.guarded_run(str(chk.mkscratch()), "harness.c07:split_worker", sitems, nproc=8, hard_timeout=120)
+    sdiffs, shist = [], Counter()
+    for d, v, h in r3:
+        sdiffs += d
+        shist.update(h)
+        for x in v:
+            bad.append({"text": x["text"], "why": x["why"]})
+    for item, kind, detail in c3:
+        bad.append({"seed": item, "text": "", "why": f"{kind}: {detail} (split_row)"})
+    chk.coverage.update({"traces_validated_against_impl": shist.get("rows-split", 0), "correspondence_differences": len(sdiffs),
+                         "split_row_histogram": dict(shist)})
     corpus = common.ROOT / "corpus" / "C07" / "known.json"
     if corpus.exists():
         for e in json.load(open(corpus)):
@@ -223,7 +295,13 @@ def run(chk: common.Check):
         chk.violation("C07 violated: " + b["why"], b, sig={"why": b["why"][:25]})
     if chk.violations:
         return
+    broken = []
     if not res.ok:
-        chk.violation("C07 is no longer shown to hold: lean broke; the word/ancestor oracle found no lossy document",
-                      {"broken": [{"kind": "lean", "failed": res.failed_targets, "log_tail": res.log[-1500:]}], "theorems": PROP_MODULES},
-                      no_input=True)
+        broken.append({"kind": "lean", "failed": res.failed_targets, "bad_axioms": res.bad_axioms, "forbidden": res.forbidden_hits,
+                       "log_tail": res.log[-1500:]})
+    if sdiffs:
+        broken.append({"kind": "correspondence(split_row)", "count": len(sdiffs), "first": sdiffs[0]})
+    if broken:
+        chk.violation("C07 is no longer shown to hold: " + ", ".join(b["kind"] for b in broken)
+                      + " broke; the word/ancestor oracle found no lossy document",
+                      {"broken": broken, "theorems": PROP_MODULES}, no_input=True)
